@@ -56,8 +56,11 @@ def resolver_precondition(program, rep: Report) -> None:
     """Every check resolves `self.m(...)` to the method `m` of the class hierarchy. A store that rebinds a method name on
     the instance or the class breaks that resolution, so a check that analysed the shadowed method is no longer entitled to
     a verdict: it fails closed (UNDECIDED) unless one of its own rules already reported the store as a violation."""
-    from sa.common import method_rebinds, where
+    from sa.common import controls_fire, method_rebinds, where
 
+    dead = controls_fire()
+    if dead:
+        rep.undecide("engine", f"positive control: detector(s) {dead} no longer fire on sa/fixtures/controls")
     for site_fn, node, c, attr, m, is_cache in method_rebinds(program):
         if m.fq in rep.functions or site_fn.fq in rep.functions:
             rep.undecide("engine", f"{where(site_fn, node)}: `{attr}` of {c.fq} is rebound ({' '.join(__import__('ast').unparse(node).split())[:80]}): "
